@@ -87,6 +87,8 @@ class Gen:
             body = 'let __ret = { ' + body + ' }; ' + fn.tail_proof + ' __ret'
         self.raw(extract.pretty(body))
         self.lines.append('    }')
+        if fn.requires:
+            self.lines.append(self.reach_canary(fn))
         self.lines.append('')
         self.fn_spans.append((fn.name, first, len(self.lines), fn.props))
         self.functions.append({'function': fn.name, 'source': '%s:%s' % (fn.src_file, fn.src_line), 'signature': fn.src_sig,
@@ -95,8 +97,47 @@ class Gen:
         for k, v in fn.stats.items():
             self.rule_stats[k] = self.rule_stats.get(k, 0) + v
 
+    def reach_canary(self, fn):
+        """Vacuity guard per function: a proof fn with the SAME preconditions and body `assert(false)`.  It must FAIL;
+        if it verifies, the preconditions are contradictory and the function's contract holds vacuously."""
+        sig = fn.vsig
+        i = sig.index('fn ') + 3
+        j = i
+        while sig[j].isalnum() or sig[j] == '_':
+            j += 1
+        name = sig[i:j]
+        generics = ''
+        k = j
+        if sig[k] == '<':
+            depth = 0
+            while True:
+                if sig[k] == '<':
+                    depth += 1
+                elif sig[k] == '>':
+                    depth -= 1
+                    if depth == 0:
+                        break
+                k += 1
+            generics = sig[j:k + 1]
+            k += 1
+        assert sig[k] == '('
+        depth, e = 0, k
+        while True:
+            if sig[e] == '(':
+                depth += 1
+            elif sig[e] == ')':
+                depth -= 1
+                if depth == 0:
+                    break
+            e += 1
+        params = sig[k + 1:e]
+        params = re.sub(r'&mut self\b|&self\b|\bmut self\b', 'self', params)
+        params = re.sub(r':\s*&mut\s+', ': ', params)
+        reqs = [re.sub(r'\bold\((\w+)\)', r'\1', r) for r in fn.requires]
+        return ('    proof fn reach_%s%s(%s) requires %s, { assert(false); } /*OB:canary.%s:*/' % (name, generics, params, ', '.join(reqs), fn.name))
+
     def text(self):
-        return '\n'.join(self.lines) + '\n'
+        return '\n'.join(self.lines) + '\n' 
 
 
 class VerusRun:
@@ -193,6 +234,7 @@ def run_verus(prop, tier, seed=0, repo=None):
         # the unit is checked again (at most 4 rounds); failures of all rounds are reported.
         failed = {}   # obligation label -> (detail, props)
         canary_failed = False
+        canaries_failed = set()
         rejected = None
         res, fb = {}, []
         for rnd in range(4):
@@ -249,8 +291,10 @@ def run_verus(prop, tier, seed=0, repo=None):
                     label = '%s.%s@%s' % (fname or 'unit', ('pre.' + callee) if (callee and 'precondition' in e['kind']) else kind, re.sub(r'\s+', ' ', src_line)[:70])
                     props = u.props_for(fname, callee if 'precondition' in e['kind'] else kind) if hasattr(u, 'props_for') else (fprops or u.PROPS)
                     ob = (label, props)
-                elif ob[0] == 'canary':
-                    canary_failed = True
+                elif ob[0].startswith('canary'):
+                    canaries_failed.add(ob[0])
+                    if ob[0] == 'canary':
+                        canary_failed = True
                     continue
                 if ob[0] not in failed:
                     failed[ob[0]] = (e['text'][:1500], ob[1] or (fprops or u.PROPS))
@@ -270,11 +314,16 @@ def run_verus(prop, tier, seed=0, repo=None):
         if not canary_failed:
             vr.undecided.append('unit %s: vacuity guard: the assert(false) canary did not fail (contradictory prelude or empty run)' % u.NAME)
             continue
+        all_canaries = set(m.group(1) for l in g.text().split('\n') for m in [RE_OB.search(l)] if m and m.group(1).startswith('canary.'))
+        vacuous = sorted(all_canaries - canaries_failed)
+        if vacuous:
+            vr.undecided.append('unit %s: vacuity guard: the preconditions of %s are contradictory (reachability canary verified)' % (u.NAME, ', '.join(v[7:] for v in vacuous)))
+            continue
         # ---- discharged obligations: every OB marker that did not fail, plus one per call-site precondition ----
         n_markers = 0
         for idx, l in enumerate(glines):
             m = RE_OB.search(l)
-            if not m or m.group(1) == 'canary':
+            if not m or m.group(1).startswith('canary'):
                 continue
             props = [p for p in m.group(2).split(',') if p]
             if prop not in props:
@@ -310,7 +359,7 @@ def run_verus(prop, tier, seed=0, repo=None):
         vr.assumption_scan[u.NAME] = {k: len(re.findall(k, body_part)) for k in (r'\bassume\(', r'\badmit\(', r'external_body', r'assume_specification', r'verifier::external')}
         if any(vr.assumption_scan[u.NAME].values()):
             vr.undecided.append('unit %s: assumption scan found assume/admit/external_body outside the prelude' % u.NAME)
-        vr.vacuity[u.NAME] = {'canary_failed_as_required': True, 'verified_functions': res.get('verified'), 'verus_errors': res.get('errors'), 'markers_for_this_property': n_markers}
+        vr.vacuity[u.NAME] = {'canary_failed_as_required': True, 'per_function_reachability_canaries_failed_as_required': len(all_canaries), 'verified_functions': res.get('verified'), 'verus_errors': res.get('errors'), 'markers_for_this_property': n_markers}
         log('verus unit %s: verified=%s errors=%s wall=%.1fs' % (u.NAME, res.get('verified'), res.get('errors'), time.time() - t0))
     vr.cmd = '; '.join(cmds)
     return vr
